@@ -253,7 +253,7 @@ func (c *V1) Do(op Op) (out Outcome) {
 		_, err := c.callPutItem(in)
 		return fin(err)
 	case OpGet:
-		in := &v1ddb.GetItemInput{TableName: aws.String(op.Table), Key: ItemToV1(op.Key), ProjectionExpression: strp(op.Proj), ExpressionAttributeNames: v1Names(op.Names)}
+		in := &v1ddb.GetItemInput{TableName: aws.String(op.Table), Key: ItemToV1(op.Key), ProjectionExpression: strpSet(op.Proj, op.ProjSet), ExpressionAttributeNames: v1Names(op.Names)}
 		in.ReturnConsumedCapacity = strp(op.RetCap)
 		in.AttributesToGet = v1Strs(op.AttrsToGet)
 		if op.Consistent {
@@ -318,7 +318,7 @@ func (c *V1) Do(op Op) (out Outcome) {
 		}
 		return o
 	case OpQuery:
-		in := &v1ddb.QueryInput{TableName: aws.String(op.Table), FilterExpression: strp(op.Filter), ProjectionExpression: strp(op.Proj),
+		in := &v1ddb.QueryInput{TableName: aws.String(op.Table), FilterExpression: strpSet(op.Filter, op.FilterSet), ProjectionExpression: strpSet(op.Proj, op.ProjSet),
 			ExpressionAttributeNames: v1Names(op.Names), ExpressionAttributeValues: ItemToV1(op.Values), IndexName: strp(op.Index),
 			ExclusiveStartKey: ItemToV1(op.Start)}
 		in.ReturnConsumedCapacity = strp(op.RetCap)
@@ -352,7 +352,7 @@ func (c *V1) Do(op Op) (out Outcome) {
 		}
 		return o
 	case OpScan:
-		in := &v1ddb.ScanInput{TableName: aws.String(op.Table), FilterExpression: strp(op.Filter), ProjectionExpression: strp(op.Proj),
+		in := &v1ddb.ScanInput{TableName: aws.String(op.Table), FilterExpression: strpSet(op.Filter, op.FilterSet), ProjectionExpression: strpSet(op.Proj, op.ProjSet),
 			ExpressionAttributeNames: v1Names(op.Names), ExpressionAttributeValues: ItemToV1(op.Values), IndexName: strp(op.Index),
 			ExclusiveStartKey: ItemToV1(op.Start)}
 		in.ReturnConsumedCapacity = strp(op.RetCap)
